@@ -56,8 +56,9 @@ class Gen:
 class HistoryMonitor:
     """Online checker: one ``observe`` per generation, in history order."""
 
-    def __init__(self, ctx, u, icls, coords, history):
+    def __init__(self, ctx, u, icls, coords, history, model=None):
         self.ctx, self.u = ctx, numpy.asarray(u, dtype=float)
+        self.model = model
         self.icls, self.coords, self.history = icls, coords, history
         self.gens = []
         self.env = {}        # (view, scaling) -> tightest earlier limits per trait and the generations that set them
@@ -80,7 +81,10 @@ class HistoryMonitor:
         if cond:
             self.ctx.ok(clause)
             return True
-        site, icls = attrib() if callable(attrib) else attrib
+        a = attrib() if callable(attrib) else attrib
+        site, icls = a[0], a[1]
+        if len(a) > 2:      # the number was traced to an upstream component: the key names the relation broken *there*
+            rel = a[2]
         self.ctx.check(clause, False, site, rel, icls, what=(what(site) if callable(what) else what),
                        witness=(witness() if callable(witness) else witness), coords=self.coords)
         return False
@@ -108,23 +112,27 @@ class HistoryMonitor:
         prev = self.gens[-1] if self.gens else None
         ic0 = self.icls
 
-        # ---- C10.lost on integer counts (once per generation)
+        # ---- C10.lost on integer counts (once per generation; by induction "count 0 at t => count 0 at every t' > t"
+        #      is the same as "count 0 at t-1 => count 0 at t" for every t, so the masks are those of the predecessor)
         if prev is not None:
             back0 = numpy.flatnonzero(self.lost0 & (G.count != 0))
             back1 = numpy.flatnonzero(self.lost1 & (G.count != G.N))
+            codes_ok = bool(numpy.all((mat == 0) | (mat == 1)))
             self.chk("C10.lost", len(back0) == 0, (opsite, ic0), "allele 1 with integer count 0 stays absent",
                      what="%s: allele 1 reappeared at %d loci where its count had been 0" % (opsite, len(back0)),
                      witness=lambda: self._w(G, "counts", "-", "-", loci=back0, previous_count=prev.count))
             self.chk("C10.lost", len(back1) == 0, (opsite, ic0), "allele 0 with integer count 0 stays absent",
                      what="%s: allele 0 reappeared at %d loci where allele 1 had been fixed" % (opsite, len(back1)),
                      witness=lambda: self._w(G, "counts", "-", "-", loci=back1, previous_count=prev.count))
-            self.chk("C10.lost", bool(numpy.all((mat == 0) | (mat == 1))), (opsite, ic0), "only the founders' alleles 0/1 occur",
+            self.chk("C10.lost", codes_ok, (opsite, ic0), "only the founders' alleles 0/1 occur",
                      witness=lambda: self._w(G, "counts", "-", "-", codes=numpy.unique(mat)))
-            self.lost0 = self.lost0 | (G.count == 0)
-            self.lost1 = self.lost1 | G.fixed1
-        else:
-            self.lost0 = G.count == 0
-            self.lost1 = G.fixed1.copy()
+            if len(back0) or len(back1) or not codes_ok:
+                # the step just reported did not produce a descendant population: limits of the ancestors say nothing about
+                # this one.  The history relations restart here (their failure would be the same finding once more).
+                self.env.clear(); self.lost_lib.clear()
+                self.ctx.sumnote("history monitor restarted after an allele reappeared")
+        self.lost0 = G.count == 0
+        self.lost1 = G.fixed1.copy()
 
         # ---- C10.lost on the frequencies the library itself reports for the population
         for view, (p, acls) in afreqs.items():
@@ -221,8 +229,12 @@ class HistoryMonitor:
     # ------------------------------------------------------------------ attribution (only consulted for keys / witnesses)
     def attribute(self, G, view, sc, kind):
         """(site, input class) of the component that produced the reported limit ``kind`` of generation ``G``."""
-        model_site = "DenseAdditiveLinearGenomicModel.%s_numpy" % kind
+        numpy_site = "%s.%s_numpy" % (defining_class(self.model, kind + "_numpy"), kind)
         val, dev = G.info.get((view, sc, kind), (None, False))
+        fr = G.info.get(("frequency", sc, kind))
+        if view == "frequency" or (fr is not None and fr[1]):
+            # wrong already when handed the correctly rounded frequency vector: the input form does not matter
+            return numpy_site, "any input form"
         if view in G.afreq:
             p, acls = G.afreq[view]
             p = numpy.asarray(p, dtype=float)
@@ -232,16 +244,14 @@ class HistoryMonitor:
                 ru, rl = tight_reference(self.u, pres, fix, G.ploidy)
                 r = (ru if kind == "usl" else rl) + (G.offset if sc == "un" else 0.0)
                 if r.shape == val.shape and numpy.all(numpy.abs(val - r) <= self.tol(G.ploidy, G.offset)):
-                    return acls + ".afreq", size_class(G.N)
-            return model_site, "%s input" % view
-        if view == "ndarray":
-            fr = G.info.get(("frequency", sc, kind))
-            if dev and fr is not None and not fr[1]:
-                # the same model is right when handed the correctly rounded frequency:
-                # the frequency computed inside usl()/lsl() for array input is what is off
-                return "DenseAdditiveLinearGenomicModel.%s" % kind, "ndarray input, " + size_class(G.N)
-            return model_site, "ndarray input"
-        return model_site, "%s input" % view
+                    return acls + ".afreq", size_class(G.N), "reported frequency exactly 0/1 iff count 0/ploidy*n (limits follow it)"
+            return "%s.%s" % (defining_class(self.model, kind), kind), "%s matrix input" % view
+        if view == "ndarray" and dev and fr is not None:
+            # the same model is right when handed the correctly rounded frequency:
+            # the frequency computed inside usl()/lsl() for array input is what is off
+            return ("%s.usl/lsl" % defining_class(self.model, kind), "ndarray input, " + size_class(G.N),
+                    "frequency computed from array input exactly 0/1 iff count 0/ploidy*n (limits follow it)")
+        return "%s.%s" % (defining_class(self.model, kind), kind), "%s input" % view
 
     def attribute_pair(self, G, view, sc, kind, earlier_t, ancestor_first=False):
         """Relation between two generations: blame the generation whose number is off the reference, else the operation."""
